@@ -20,6 +20,7 @@ type reply struct {
 	MaxPoints  int
 	Outcomes   map[string]int
 	Exhaustive bool
+	SleepCut   int
 	Failure    *sched.Failure
 	InfraErr   string
 }
@@ -27,6 +28,8 @@ type reply struct {
 type Spec struct {
 	Name     string
 	Bound    int
+	// Sleep: unbounded exploration with sleep sets (needs Bound < 0). The evidence names the reduction.
+	Sleep    bool
 	Shards   int
 	MaxExecs int
 	Budget   time.Duration
@@ -43,6 +46,8 @@ type Summary struct {
 	Outcomes   int
 	Exhaustive bool
 	Violation  bool
+	SleepCut   int
+	OutcomeSet map[string]bool
 }
 
 // Run explores spec. In a shard child whose VERIF_PART differs from spec.Name it does nothing.
@@ -52,12 +57,12 @@ func Run(r *runner.Run, t *testing.T, spec Spec) Summary {
 			return Summary{}
 		}
 		i, n := sched.ShardFromEnv()
-		opt := sched.Options{Name: spec.Name, Bound: spec.Bound, Shard: i, Shards: n, MaxExecs: spec.MaxExecs, OnExecution: spec.Oracle}
+		opt := sched.Options{Name: spec.Name, Bound: spec.Bound, Sleep: spec.Sleep, Shard: i, Shards: n, MaxExecs: spec.MaxExecs, OnExecution: spec.Oracle}
 		if spec.Budget > 0 {
 			opt.Deadline = time.Now().Add(spec.Budget)
 		}
 		res := sched.Explore(t, opt, spec.Body)
-		rep := reply{Executions: res.Executions, Points: res.Points, MaxPoints: res.MaxPoints, Outcomes: res.Outcomes, Exhaustive: res.Exhaustive, Failure: res.Failure}
+		rep := reply{Executions: res.Executions, Points: res.Points, MaxPoints: res.MaxPoints, Outcomes: res.Outcomes, Exhaustive: res.Exhaustive, Failure: res.Failure, SleepCut: res.SleepCut}
 		if res.InfraErr != nil {
 			rep.InfraErr = res.InfraErr.Error()
 		}
@@ -91,6 +96,7 @@ func Run(r *runner.Run, t *testing.T, spec Spec) Summary {
 		}
 		sum.Executions += rep.Executions
 		sum.Points += rep.Points
+		sum.SleepCut += rep.SleepCut
 		for k, v := range rep.Outcomes {
 			outcomes[k] += v
 		}
@@ -102,11 +108,20 @@ func Run(r *runner.Run, t *testing.T, spec Spec) Summary {
 		}
 	}
 	sum.Outcomes = len(outcomes)
+	sum.OutcomeSet = map[string]bool{}
+	for k := range outcomes {
+		sum.OutcomeSet[k] = true
+	}
 	r.Add("states", int64(sum.Executions))
 	r.Add("transitions", int64(sum.Points))
 	r.Add("traces_validated_against_impl", int64(sum.Executions))
 	r.Set("sched:"+spec.Name, map[string]any{"executions": sum.Executions, "choice_points": sum.Points, "preemption_bound": spec.Bound,
 		"distinct_outcomes": len(outcomes), "exhaustive_within_bound": sum.Exhaustive, "shards": shards})
+	if spec.Sleep {
+		r.Set("sched:"+spec.Name, map[string]any{"executions": sum.Executions, "choice_points": sum.Points, "preemption_bound": spec.Bound,
+			"distinct_outcomes": len(outcomes), "exhaustive_within_bound": sum.Exhaustive, "shards": shards,
+			"reduction": "sleep sets over lock/connection footprints", "executions_cut_as_redundant": sum.SleepCut})
+	}
 	if !sum.Exhaustive {
 		r.NotExhaustive(fmt.Sprintf("%s: execution cap or time budget reached", spec.Name))
 	}
